@@ -1529,6 +1529,45 @@ pub fn frag_size_options(mut modifier: String, mut zeroes: i32) -> (Option<human
     return dict(functions=[r], dropped=[d], assumptions=['humansize: BINARY = 1024-based with KiB.. units, DECIMAL = 1000-based with kB.., WINDOWS = 1024-based with KB.. units; FixedAt fixes the unit'])
 
 
+def unit_variance(inj, scratch):
+    """get_variance, get_mean, get_buffer_sum: whole bodies verbatim on a shim row world; the `n` statements of the four
+    VAR / STDDEV arms of get_aggregate_value as fragments."""
+    frag_begin(inj)
+    s = src('src/function.rs', scratch)
+    fns, recs, dropped = [], [], []
+    for name in ['get_variance', 'get_mean', 'get_buffer_sum']:
+        it = s.fn(name)
+        sig = re.sub(r'\s+', ' ', s.text[it['sig_start']:it['open']]).strip()
+        sig2 = sig.replace('&Vec<HashMap<String, String>>', '&Vec<Row>').replace('&String', '&Key')
+        if 'HashMap' in sig2 or 'String' in sig2 or sig2 == sig:
+            raise AnchorLost(f'{name}: signature changed shape: {sig!r}')
+        body = s.text[it['open']:it['end']]
+        fns.append('pub ' + sig2 + ' ' + body if not sig2.startswith('pub') else sig2 + ' ' + body)
+        r, d = frag_record('variance::' + name, 'src/function.rs', f'fn {name} (whole body, verbatim, on the shim row world)', body, body,
+                           ['Vec<HashMap<String, String>> -> Vec<Row>, String key -> Key, String cell -> Cell (numeral or text) with parse::<T>()'],
+                           'HashMap lookup and str::parse (std)')
+        recs.append(r); dropped.append(d)
+    ag = s.fn('get_aggregate_value')
+    nfr = []
+    for variant, fname in [('VarPop', 'frag_n_varpop'), ('VarSamp', 'frag_n_varsamp'), ('StdDevPop', 'frag_n_stddevpop'), ('StdDevSamp', 'frag_n_stddevsamp')]:
+        arm = s.arm(r'Some\(Function::' + variant + r'\)', s.body_span(ag))
+        a0, a1 = arm[1] + 1, arm[2] - 1
+        m1 = s.find_one(r'if\s+raw_output_buffer\.is_empty\(\)\s*\{[^}]*\}', (a0, a1), what=f'{variant}: empty-buffer guard')
+        m2 = s.find_one(r'let\s+variance\s*=\s*get_variance\(raw_output_buffer,\s*&buffer_key,\s*n\)\s*;', (a0, a1), what=f'{variant}: get_variance(raw_output_buffer, &buffer_key, n)')
+        stm = dedent(s.text[m1.end():m2.start()].strip())
+        gen = stm.replace('raw_output_buffer.len()', 'len')
+        if 'raw_output_buffer' in gen or 'len' not in gen:
+            raise AnchorLost(f'{variant}: the statements computing n changed shape: {stm!r}')
+        nfr.append(f'pub fn {fname}(len: usize) -> usize {{ {gen}\n n }}')
+        r, d = frag_record('variance::' + fname, 'src/function.rs', f'fn get_aggregate_value / arm Some(Function::{variant}) / statements between the empty-buffer guard and the call get_variance(raw_output_buffer, &buffer_key, n)',
+                           stm, gen, ['raw_output_buffer.len() -> len'], 'the empty-buffer guard, sqrt, to_string')
+        recs.append(r); dropped.append(d)
+    text = 'pub mod variance {\n' + H('frag_variance_prelude.rs') + '\n// ---- verbatim bodies ----\n' + '\n'.join(fns) + '\n// ---- fragments ----\n' + '\n'.join(nfr) + '\n' + H('frag_variance.kani.rs') + '\n}\n'
+    inj.new_file(FRAG_FILE, text)
+    return dict(functions=recs, dropped=dropped, assumptions=['f64::powi(x, 2) == x * x (stubbed: CBMC does not model the powi intrinsic)',
+                                                              'a numeral cell denotes the same number under parse::<usize>() and parse::<f64>()'])
+
+
 def unit_outputformat(inj, scratch):
     rel = 'src/query.rs'
     s = src(rel, scratch)
